@@ -29,6 +29,9 @@ NAMES = ["out.json", "a#b.json", "q?x.json", "s;p.json", "c:d.json", "with space
          "./rel.json", "%41.json", "a&b=c.json", "trailing#", "x.prov?"]
 
 
+OLD = b"OLD CONTENT " * 20000        # longer than any document written here: a destination that is not truncated shows
+
+
 class Boom(OSError):
     """injected I/O failure (an OSError, like ENOSPC or EFBIG)"""
 
@@ -86,7 +89,7 @@ def run_once(doc, fmt, workdir, tmpdir, name, present, fault, n_writes):
     os.makedirs(os.path.join(workdir, "sub", "dir"), exist_ok=True)
     open(os.path.join(workdir, "bystander.txt"), "wb").write(b"bystander")
     if present:
-        open(os.path.join(workdir, name), "wb").write(b"OLD CONTENT")
+        open(os.path.join(workdir, name), "wb").write(OLD)
     before = snapshot(workdir)
     plan = {"calls": 0, "calls_close": 0, "fault": fault, "n_writes": n_writes}
     real_fdopen = os.fdopen
@@ -186,7 +189,7 @@ def run(ctx, use_model=True):
                                     fails.append(Failure("oracle", None, "after a failure at step %s of %s the destination is neither its previous content nor absent (%s bytes)" % (
                                         fault, n_writes + 2, None if got is None else len(got)), case))
                             model_ops.append({"op": "write_path", "n": n_writes, "fault": fault, "dest_exists": present})
-                            expectations.append((case, {"ok": exc is None, "dest": ("absent" if got is None else ("old" if got == b"OLD CONTENT" else "new")),
+                            expectations.append((case, {"ok": exc is None, "dest": ("absent" if got is None else ("old" if got == OLD else "new")),
                                                         "tmp_left": bool(leftovers), "other_intact": after.get("bystander.txt") == b"bystander"}))
                             ctx.sample(case)
         # destination analysis channel: model's destPath vs what really happens to the name
